@@ -167,6 +167,33 @@ Names ==
          \cup {FunDef("f", <<Arg(n1, I2), Arg(n2, TBool)>>, <<Ret(IfE(Name(n2), Bin(op, Name(n1), CI(1)), Name(n1)))>>, I2) : op \in {"Add", "Mult"}}
         : nn \in {x \in (NmS \cup {"b"}) \X (NmS \cup {"b"}) : x[1] # x[2]}}
 
+\* what the constant folder folds: the loop variable (a literal after unrolling) under every foldable operator, unary
+\* operator, comparison, builtin and constant-list lookup, the folded value then combined with an argument
+Li(es) == [T |-> "List", elts |-> es]
+FoldE == {Bin(op, I, CI(k)) : op \in {"Add", "Sub", "Mult", "FloorDiv", "Mod", "Pow", "LShift", "RShift", "BitOr", "BitXor", "BitAnd"}, k \in {1, 2, 3}}
+         \cup {Bin(op, CI(k), I) : op \in {"Sub", "LShift", "RShift", "Pow"}, k \in {3, 5}}
+         \cup {Bin("Add", Un("USub", I), CI(3)), Bin("BitAnd", Un("Invert", I), CI(3)), Un("UAdd", I),
+               Bin("Mod", Bin("Add", Bin("Mult", I, CI(2)), CI(1)), CI(3)), Bin("FloorDiv", Bin("Add", I, CI(1)), CI(2))}
+         \cup {CallN(f, <<I, CI(k)>>) : f \in {"min", "max"}, k \in {1, 2}}
+         \cup {Call1("sum", Li(<<I, CI(1), I>>)), Call1("len", Li(<<I, I>>)), Call1("max", Li(<<I, CI(1)>>)), Call1("min", Tup(<<I, CI(2)>>)),
+               Sub(Li(<<CI(2), CI(0), CI(3), CI(1)>>), I), Sub(Li(<<CI(1), CI(3), CI(0), CI(2)>>), Bin("Mod", Bin("Add", I, CI(1)), CI(4)))}
+FoldB == {Cmp(op, Bin("Mod", I, CI(2)), CI(k)) : op \in {"Eq", "NotEq", "Lt", "LtE", "Gt", "GtE"}, k \in {0, 1}}
+         \cup {Un("Not", Cmp("Gt", I, CI(1))), BoolOpN("And", <<Cmp("Gt", I, CI(0)), Cmp("Lt", I, CI(3))>>), BoolOpN("Or", <<Cmp("Eq", I, CI(0)), Cmp("Eq", I, CI(3))>>),
+               Call1("any", Li(<<Cmp("Gt", I, CI(2)), CB(FALSE)>>)), Call1("all", Li(<<Cmp("Gt", I, CI(0)), CB(TRUE)>>)),
+               Cmp("Gt", Bin("FloorDiv", I, CI(2)), CI(0)), Cmp("Eq", Bin("Pow", I, CI(2)), CI(4))}
+ConstFold ==
+  {FunDef("f", SigI, <<Assign("u", CI(0)), For("i", Range(4), <<Aug("u", aop, Bin(op2, A, e))>>), Ret(U)>>, rt) :
+       e \in FoldE, aop \in {"Add", "BitXor"}, op2 \in {"Add", "BitXor", "Mult"}, rt \in {I4}}
+  \cup {FunDef("f", SigI, <<Assign("u", CI(0)), For("i", Range(4), <<Aug("u", "Add", e)>>), Ret(Bin("Add", U, B))>>, rt) : e \in FoldE, rt \in {I4, TInt(8)}}
+  \cup {FunDef("f", SigI, <<Assign("u", A), For("i", Range(4), <<If(t, <<Aug("u", "Add", g)>>, els)>>), Ret(U)>>, I4) :
+       t \in FoldB, g \in {I, B}, els \in {<<>>, <<Aug("u", "BitXor", CI(1))>>}}
+  \cup {FunDef("f", SigI, <<Assign("u", CI(0)), For("i", Range(4), <<Aug("u", "Add", IfE(t, A, Bin("Add", B, I)))>>), Ret(U)>>, I4) : t \in FoldB}
+  \cup {FunDef("f", SigI, <<Assign("u", CB(FALSE)), For("i", Range(4), <<Assign("u", Bin("BitXor", U, BoolOpN(bop, <<t, Cc>>)))>>), Ret(U)>>, TBool) :
+       t \in FoldB, bop \in {"And", "Or"}}
+  \cup {FunDef("f", <<Arg("l", TList(I2, 4)), Arg("a", I2)>>, <<Assign("u", CI(0)), For("i", Range(4), <<Aug("u", "Add", Sub(Name("l"), e))>>), Ret(U)>>, I4) :
+       e \in {Bin("FloorDiv", I, CI(2)), Bin("Mod", Bin("Add", I, CI(1)), CI(4)), Bin("Sub", CI(3), I), Bin("BitXor", I, CI(1)), Bin("RShift", I, CI(1)),
+              CallN("min", <<I, CI(2)>>), Sub(Li(<<CI(3), CI(2), CI(1), CI(0)>>), I)}}
+
 Pool == CASE Family = "loopif" -> LoopIf [] Family = "elif" -> Elif [] Family = "nested" -> Nested
           [] Family = "listidx" -> ListIdx [] Family = "swapuse" -> SwapUse [] Family = "ifaug" -> IfAug
           [] Family = "iftest" -> IfTest
@@ -175,6 +202,7 @@ Pool == CASE Family = "loopif" -> LoopIf [] Family = "elif" -> Elif [] Family = 
           [] Family = "chargrid" -> CharGrid
           [] Family = "tupvar" -> TupVar
           [] Family = "names" -> Names
+          [] Family = "constfold" -> ConstFold
 Init == p \in Pool
 Next == FALSE /\ p' = p
 Spec == Init /\ [][Next]_p
